@@ -251,7 +251,15 @@ Definition sel (v : gval) (f : string) : res gval :=
       if f =? "dataCache" then RRet (VDMarks (iw_dm w)) else RFail ("Manager." ++ f)
   | VObj _ fields => match lookup fields f with Some v => RRet v | None => RFail ("field " ++ f) end
   | VBatchQ b => if f =? "Transactions" then RRet (VTxsQ b) else RFail ("Batch." ++ f)
-  | VRec fields => match lookup fields f with Some v => RRet v | None => RFail ("field " ++ f) end
+  | VRec fields =>
+      match lookup fields f with
+      | Some v => RRet v
+      | None =>                                  (* a field promoted from the embedded *Batch (block.BatchData) *)
+          match lookup fields "Batch" with
+          | Some (VRec bf) => match lookup bf f with Some v => RRet v | None => RFail ("field " ++ f) end
+          | _ => RFail ("field " ++ f)
+          end
+      end
   | VTok _ _ => RRet (VTok ("." ++ f) [v])
   | VIdsResult ids ts =>
       if f =? "IDs" then RRet (VIds ids 0) else
@@ -323,7 +331,12 @@ Definition meth (v : gval) (m : string) (args : list gval) : res gval :=
   | VRec fields, [] =>                                         (* a struct given with the results of its getters: field "M()" *)
       match lookup fields (m ++ "()") with
       | Some x => RRet x
-      | None => RFail ("method " ++ m ++ " of a record")
+      | None =>
+          if m =? "UnixNano" then                  (* promoted from the embedded time.Time (block.BatchData) *)
+            match lookup fields "Time" with Some (VZ t) => RRet (VZ t) | _ => RFail "UnixNano" end
+          else if m =? "DACommitment" then         (* the commitment of a Data record: a function of its Txs *)
+            match lookup fields "Txs" with Some txs => RRet (VTok "commitment" [txs]) | None => RFail "DACommitment" end
+          else RFail ("method " ++ m ++ " of a record")
       end
   | VOPub (Some p), [VPayload h; VSig s] =>
       if m =? "Verify" then RRet (VTuple [VBool (verify_header p h s); VErr false]) else RFail ("PubKey." ++ m)
@@ -479,10 +492,17 @@ Definition builtin (globals : env) (f : string) (args : list gval) : res gval :=
     match args with [VSeg t lo hi; VN n] => RRet (VSeg t lo (lo + n)) | _ => RFail "a[:n]" end
   else if f =? "$slice_from" then                               (* a[n:] *)
     match args with [VSeg t lo hi; VN n] => RRet (VSeg t (lo + n) hi) | _ => RFail "a[n:]" end
+  else if f =? "context.WithValue" then RRet (VTok f args)
   else if f =? "context.WithTimeout" then RRet (VTuple [VTok "ctx-with-timeout" args; VUnit])
   else if (f =? "int") || (f =? "time.Duration") then match args with [v] => RRet v | _ => RFail f end
   else if f =? "max" then match args with [VZ a; VZ b] => RRet (VZ (Z.max a b)) | _ => RFail "max" end
   else if f =? "time.NewTicker" then RRet (VTok f args)
+  else if f =? "os.IsNotExist" then
+    match args with
+    | [VErrTag t] => RRet (VBool (t =? "os.ErrNotExist"))
+    | [VNil] | [VErr _] => RRet (VBool false)
+    | _ => RFail "os.IsNotExist"
+    end
   else if f =? "filepath.Join" then RRet (VTok f args)           (* a path, by its components *)
   else if f =? "gob.NewEncoder" then match args with [w] => RRet w | _ => RFail "gob.NewEncoder" end   (* encoding into w *)
   else if f =? "gob.Register" then RRet VUnit
@@ -651,6 +671,10 @@ Definition eff_meth (v : gval) (m : string) (args : list gval) : option (res (gv
       if m =? "Put" then Some (RIf ok (RRet (VNil, [VEff "put" [VKeyQ k; VBatchQ b]])) (RRet (VErr true, []))) else None
   | VQDB ok, [_; VKeyQ k] =>
       if m =? "Delete" then Some (RRet (VNil, [VEff "delete" [VKeyQ k]])) else None
+  | VAtom name cur, [VZ 0%Z; VN new] =>                        (* CompareAndSwap(0, new): the literal 0 *)
+      if m =? "CompareAndSwap"
+      then Some (RIf (0 =? cur)%N (RRet (VBool true, [VEff (String.append name ".store") [VN new]])) (RRet (VBool false, [])))
+      else None
   | VAtom name cur, [VN old; VN new] =>
       if m =? "CompareAndSwap"
       then Some (RIf (old =? cur)%N (RRet (VBool true, [VEff (String.append name ".store") [VN new]])) (RRet (VBool false, [])))
@@ -811,7 +835,7 @@ Fixpoint eval (fuel : nat) (fs : list (string * gfun)) (globals en : env) (e : g
                 bind (ev fe) (fun v => match v with
                                        | VTxs (Some l) => RRet (VData {| d_meta := None; d_txs := l |})
                                        | VTxs None => RRet (VData {| d_meta := None; d_txs := [] |})
-                                       | _ => RFail "Data{Txs: ?}" end)
+                                       | _ => RRet (VRec [(fname, v)]) end)          (* an uninterpreted tx list: a record *)
               else bind (ev fe) (fun v => RRet (VRec [(fname, v)]))        (* &types.Data{Metadata: m}: a record *)
           | [] => RRet (VData {| d_meta := None; d_txs := [] |})          (* &types.Data{} *)
           | _ => RFail "Data literal"
@@ -826,8 +850,12 @@ Fixpoint eval (fuel : nat) (fs : list (string * gfun)) (globals en : env) (e : g
           end
         else
           (* any other struct literal: a record of its fields *)
+          (* ... or, when the world scripts the untranslated methods of this type (global "$orc:T"), an object *)
           bind (seq_res (map (fun fe => bind (ev (snd fe)) (fun v => RRet (fst fe, v))) fields))
-               (fun fvs => RRet (VRec fvs))
+               (fun fvs => match lookup globals (String.append "$orc:" ty) with
+                           | Some o => RRet (VObj ty (("$orc", o) :: fvs))
+                           | None => RRet (VRec fvs)
+                           end)
     | EUnknown w => RFail ("outside the fragment: " ++ w)
     end
   end
@@ -984,7 +1012,11 @@ with exec (fuel : nat) (fs : list (string * gfun)) (globals en : env) (lg : list
               | None =>
                 match orc_meth v m vs lg with
                 | Some (_, eff) => exec fuel' fs globals en (eff :: lg) rest
-                | None => bind (ev (EMeth a m args)) (fun _ => exec fuel' fs globals en lg rest)   (* a pure call, result dropped *)
+                | None =>
+                  match eff_meth v m vs with
+                  | Some outcome => bind outcome (fun re => exec fuel' fs globals en (rev (snd re) ++ lg) rest)   (* result dropped, effects kept *)
+                  | None => bind (ev (EMeth a m args)) (fun _ => exec fuel' fs globals en lg rest)   (* a pure call, result dropped *)
+                  end
                 end
               end
             end))
